@@ -4,6 +4,10 @@ CONSTANTS
   MaxOps = 3
   Kinds = {"write"}
   Fates = {"deliver", "drop"}
+  Rejects = {}
+  CbOps = "none"
   Recheck = FALSE
+  Post = "none"
+  Record = "always"
   Export = TRUE
 INVARIANTS EmitHazard
